@@ -1,19 +1,22 @@
 import Litep2pVerif.Proofs.Kad.Coordinator
+import Litep2pVerif.Proofs.Kad.CoordinatorOwned
 import Litep2pVerif.Generated.Consts
 /-!
 # C16 — Every Kademlia operation started by the user ends with one terminal event
 
-Property theorems only (model: `Model/Kad/Coordinator.lean`, lemmas: `Proofs/Kad/Coordinator.lean`).
+Property theorems only (model: `Model/Kad/Coordinator.lean`, lemmas: `Proofs/Kad/Coordinator.lean`,
+`Proofs/Kad/CoordinatorOwned.lean`).
 The model is that of the repaired tree (four `fix:` commits: the unreachable peers of the
 PUT_VALUE/ADD_PROVIDER fan-out are failed after tracking starts; `on_connection_established` fails
 every kind of action whose substream cannot be opened and tracks the substreams it opens; an
 undecodable reply fails the request).
 
-`waiting_owned` — the ownership invariant itself (`WaitingOwned`, an executable predicate of the
-model) — is NOT proved as an unbounded theorem here: it is re-evaluated by the model driver on every
-state of every validated trace (`!waiting-not-owned`), and `terminal_once_at_quiescence_partial`
-takes it as its explicit hypothesis. Everything else (`terminal_once`, `terminal_accounted`,
-`put_quorum_sound`, the clamping rule) is proved for every schedule.
+Everything is proved for every schedule of user commands, engine actions, transport events and executor
+results (`Reachable`): `waiting_owned` (the ownership invariant, by induction over the transition system
+with the auxiliary invariants `ctx ⊆ connected` and uniqueness of the substream ids), `occupied_unreachable`,
+`terminal_once`, `terminal_accounted`, `terminal_once_at_quiescence`, `put_quorum_sound` and the clamping rule.
+The model driver still re-evaluates `WaitingOwned` on every validated trace (`!waiting-not-owned`): there it
+guards the tie between model and code, it is no longer a hypothesis of any theorem.
 -/
 namespace Litep2pVerif.Props.C16
 open Litep2pVerif Litep2pVerif.Kad.Coordinator
@@ -84,15 +87,42 @@ theorem quiescent_no_owner (s : State) (hq : Quiescent s) (x : Query) (p : Peer)
   unfold ownedB
   simp [hd, ho, hf]
 
-/-- **Exactly one terminal event at quiescence** (partial: the ownership invariant is a hypothesis).
-Full statement: `∀ s, Reachable s → Quiescent s → s.engine = [] ∧ ∀ q ∈ s.started, exactly one event`.
-Here: in a reachable state in which every waited-for peer is owned (`WaitingOwned`, checked on every
-validated trace), once the environment has discharged every obligation — no dial outstanding, no
-substream open unanswered, no executor future pending — and the engine has been drained, no query is
-live any more and every started operation has exactly one terminal event. -/
-theorem terminal_once_at_quiescence_partial (s : State) (h : Reachable s) (hOwned : WaitingOwned s)
-    (hq : Quiescent s) :
+/-- **The ownership invariant.** In every reachable state every peer a live query is waiting for is owned by
+at least one outstanding obligation of the environment: a pending dial action whose dial has not been
+concluded, a pending substream action whose open is tracked in `pending_substreams` and has not been answered,
+or an executor future (of the message kind that belongs to the query's phase). -/
+theorem waiting_owned (s : State) (h : Reachable s) : WaitingOwned s := waitingOwned_reachable h
+
+/-- Non-vacuity: a reachable state in which two queries wait for three peers, owned by a dial, a substream
+open and an executor future respectively. -/
+example :
+    let s := run {} [.cmd .findNode, .cmd (.getProviders 5), .engine (.send 0 3) [⟨false, .started, false⟩],
+      .established 4 [], .engine (.send 0 4) [⟨true, .err, false⟩], .engine (.send 1 4) [⟨true, .err, false⟩],
+      .subOpened 1]
+    Reachable s ∧ s.engine.map (fun x => (x.id, x.st.pending)) = [(0, [3, 4]), (1, [4])] ∧
+      s.dials.length = 1 ∧ s.actions.length = 1 ∧ s.futs.length = 1 :=
+  ⟨reachable_run .init _, by decide⟩
+
+/-- **`Entry::Occupied` is dead code.** A peer without connection has no per-peer context in the coordinator,
+so the branch of `on_connection_established` that discards the pending dial actions ("connection already
+exists") cannot be taken: `ConnectionEstablished` is only reported for a peer without connection. -/
+theorem occupied_unreachable (s : State) (h : Reachable s) (p : Peer) (hp : p ∉ s.connected) : p ∉ s.ctx :=
+  Kad.Coordinator.occupied_unreachable h p hp
+
+/-- Non-vacuity: a reachable state with a context for the connected peer 4 and none for the peer 3 being dialed. -/
+example :
+    let s := run {} [.cmd .findNode, .engine (.send 0 3) [⟨false, .started, false⟩], .established 4 [],
+      .engine (.send 0 4) [⟨true, .err, false⟩]]
+    Reachable s ∧ s.connected = [4] ∧ s.ctx = [4] ∧ s.dialing = [3] :=
+  ⟨reachable_run .init _, by decide⟩
+
+/-- **Exactly one terminal event at quiescence.** In every reachable state, once the environment has discharged
+every obligation — no dial outstanding, no substream open unanswered, no executor future pending — and the
+engine has been drained, no query is live any more and every started operation has exactly one terminal
+event. -/
+theorem terminal_once_at_quiescence (s : State) (h : Reachable s) (hq : Quiescent s) :
     s.engine = [] ∧ ∀ q ∈ s.started, (s.events.filter (fun e => e.1 == q)).length = 1 := by
+  have hOwned := waiting_owned s h
   have hempty : s.engine = [] := by
     cases he : s.engine with
     | nil => rfl
@@ -123,9 +153,9 @@ new connection, it answers, the lookup succeeds). -/
 example :
     let s := run {} [.cmd .findNode, .engine (.send 0 3) [⟨false, .started, false⟩], .established 3 [true],
       .subOpened 0, .result ⟨3, 0, .reqResp⟩ .readOk, .engine (.lookupDone 0 true []) []]
-    waitingOwnedB s = true ∧ s.dialing = [] ∧ s.opening = [] ∧ s.futs = [] ∧ engineIdle s.engine = true ∧
-      s.started = [0] ∧ s.events = [(0, true)] := by
-  decide
+    Reachable s ∧ s.dialing = [] ∧ s.opening = [] ∧ s.futs = [] ∧ engineIdle s.engine = true ∧
+      s.started = [0] ∧ s.events = [(0, true)] :=
+  ⟨reachable_run .init _, by decide⟩
 
 /-- **A put / announcement reports success only with the (clamped) quorum of send successes.**
 Every success of the send phase recorded in any reachable state (a `SuccessRec` is logged exactly when
@@ -178,7 +208,9 @@ theorem settle_covers_timeouts :
 
 #print axioms terminal_once
 #print axioms terminal_accounted
-#print axioms terminal_once_at_quiescence_partial
+#print axioms waiting_owned
+#print axioms occupied_unreachable
+#print axioms terminal_once_at_quiescence
 #print axioms put_quorum_sound
 #print axioms quorum_clamp_rule
 #print axioms settle_covers_timeouts
